@@ -152,7 +152,8 @@ _LC = dict(transports=['t1', 't2'], ns_h=['/', '/a'],
            ns_all=['/', '/a', '/b', '/x'], ns_api=['/', '/a', '/b'],
            ns_disc=['/', '/a', '/b'], max_sid=3,
            auths=['absent', 'auth:ok', 'auth:false', 'auth:ref0', 'auth:ref1',
-                  'auth:ref2', 'auth:ref3', 'v1'],
+                  'auth:ref2', 'auth:ref3', 'v1', 'absent:ref2',
+                  'absent:false'],
            lost_reasons=['transport close', 'ping timeout'],
            alpha='lifecycle')
 for _ac in (False, True):
